@@ -8,6 +8,29 @@ import (
 
 func init() {
 	generators["C06"] = genC06
+	generators["C05"] = genC05
+}
+
+func genC05(tier string, rng *rand.Rand, shard, nshards int, emit emitter) {
+	count := 12000
+	if tier == "thorough" {
+		count = 600000
+	}
+	for i := 0; i < count; i++ {
+		if !mine(i, shard, nshards) {
+			continue
+		}
+		t := 4 + rng.Intn(4)
+		fs := genFieldList(rng, false, rng.Intn(10) == 0)
+		trunc := -1
+		if rng.Intn(3) == 0 {
+			trunc = 1 + rng.Intn(12)
+			if rng.Intn(3) == 0 {
+				trunc = 1 + rng.Intn(125)
+			}
+		}
+		emit(fmt.Sprintf("extract %d %d %d %d %s", t, rng.Intn(2), trunc, rng.Intn(100000), fieldsToken(fs)))
+	}
 }
 
 var servers = []string{"a:502", "b_1:502", "b:502", "tcp://c_1:1", "x"}
